@@ -25,24 +25,37 @@ LEVEL_TEXT = ("Lean theorems over the rational model of create_range_dim / creat
               "The straight-line code of all five functions around their library calls (step selection, the arange call, "
               "trailing-point guard and threshold, range test, clamp values, slice-bound side and offset, the indexer) is "
               "traced symbolically from the current source on every run and proved equal to the model's kernels for all "
-              "rationals (38 obligations); the library calls themselves are tied by exact differential runs (dyadic grids "
-              "for ranges, arbitrary floats for the comparison-only lookup, all small shapes for writes).")
+              "rationals (49 obligations, the lookup also on every axis of 2-D / 3-D arrays and on axes carrying a step "
+              "attribute, with stand-in arrays whose coordinates are registered in another order than their dimensions); "
+              "the library calls themselves are tied by exact differential runs (dyadic grids for ranges, arbitrary "
+              "floats for the comparison-only lookup, all small shapes for writes, and non-square 1-D to 3-D arrays built "
+              "along every construction path of xarray - coordinate order, transposition, dimensions without "
+              "coordinates, extra non-index coordinates, assign / Dataset / tuple forms, float32 / int64 axes - for "
+              "lookups and writes, the whole array compared after each write).")
 LEVEL_NOTE = ("Unmodelled: binary64 rounding inside numpy arange (hypothesis of C16_count_robust, evaluated exactly on what "
               "np.arange returned for steps such as 0.1, 1/3, 1/44100 and for steps derived from size= / samplerate=; "
               "coordinates additionally within 2^-40 of the lattice), pandas get_slice_bound (modelled as #{c <= v}; known "
               "finding C16-2: on a float32 axis pandas casts the query value to float32 first), numpy broadcasting rules "
-              "beyond right-aligned equal-or-1.  The symbolic ties cover arrays of up to three dimensions; "
+              "beyond right-aligned equal-or-1.  The symbolic ties cover arrays of up to three dimensions; len() of a "
+              "stand-in array / index answers with an opaque large number (a branch on the length itself is followed as "
+              "for a long axis; axes of 1-6 points are the differential runs' business); float32 coordinates with "
+              "decimal steps are monitored from start 0 only (count, step attribute, lattice up to float32 rounding); "
               "create_*_dim_from_array and set_dim_attrs are outside the model.")
 TECHNIQUE = ("Lean 4 proof over model; symbolic-trace equality obligations for the kernels of the range constructors, "
              "get_coord_index and set_value_at_pos; exact differential correspondence; numpy-contract monitor for arange rounding")
 RULE = ("range requests on dyadic grids (all quotient fractions 0, 1/4, 1/2, 3/4; int / numpy-scalar arguments, float32 "
         "coordinates), decimal-step monitor (step=, size=, samplerate=), lookups on float axes of 1-6 points with queries at, "
-        "between, next to and beyond coordinates (float / numpy / int query values, float32 and int64 axes), writes on every "
+        "between, next to and beyond coordinates (float / numpy / int query values, float32 and int64 axes), lookups on "
+        "range-constructor axes inside and within / beyond one step outside (raise and clamp), lookups on every axis of 13 "
+        "non-square 2-D / 3-D shapes and writes on 14 shapes x every construction path (coordinate order, transposition, "
+        "dimensions without coordinates, extra coordinates, forms, dtypes), writes on every "
         "shape with 1-3 axes of 1-3 points and a 4-D sample; non-trivial = the implementation returned a value; distinct = "
         "distinct (operation, input)")
 TRUSTED = ["numpy arange / pandas get_slice_bound / xarray indexes and get_axis_num (modelled, validated by correspondence)",
            "the stand-ins of harness/c16_sym.py answer like numpy / xarray where the kernels ask (np.arange raises on a zero "
-           "step, Index.min / max are the range of an increasing axis, get_axis_num raises ValueError for an unknown dimension)"]
+           "step, Index.min / max are the range of an increasing axis, get_axis_num raises ValueError for an unknown dimension, "
+           "indexes / coords list their keys in registration order - not the order of the dimensions -, coordinates carry an "
+           "attrs dict, len() is the size of the first axis / of the index)"]
 ASSUMPTIONS = ["binary64 arithmetic is exact on the dyadic grids used for range requests",
                "step > 0 and start <= stop for range requests; axes increasing for lookups (the property's quantifier)",
                "the query value of a lookup is a number of the axis' dtype (on a float32 axis pandas casts a binary64 "
@@ -1029,7 +1042,7 @@ def _stage_set(ctx):
 
 def _stage_kernels(ctx):
     """Tie 1b: the kernels of the five functions, traced from the current source, equal the model's kernels
-    for all rationals (38 obligations; `C16_range_kernel`, `C16_index_kernel`, `C16_indexer_kernel`,
+    for all rationals (49 obligations; `C16_range_kernel`, `C16_index_kernel`, `C16_indexer_kernel`,
     `C16_set_kernel` connect the kernels with the model the other theorems are about)"""
     from .. import c16_sym
     ctx.stage("kernel-range", c16_sym.range_ties, ctx)
